@@ -43,6 +43,7 @@ fn warm_up() {
             m.quirks.path_prefix = Some(b"/x//..".to_vec());
             let mut t = tape::Tape::replay(vec![]);
             let wire = world::render(&m, &mut t, &world::RenderOpts {
+                mask: crate::world::NOISE_ALL,
                 noise: 0,
                 s3: false,
                 permute_pairs: false,
@@ -109,7 +110,7 @@ fn main() {
                     let (mut m, node, acct, now) = direct::known_fixture();
                     m.logical.segs = vec![b"warm".to_vec(), b"up".to_vec()];
                     let mut t = tape::Tape::replay(vec![]);
-                    let wire = world::render(&m, &mut t, &world::RenderOpts { noise: 0, s3: false, permute_pairs: false });
+                    let wire = world::render(&m, &mut t, &world::RenderOpts { mask: world::NOISE_ALL, noise: 0, s3: false, permute_pairs: false });
                     let _ = libi::validate_simple(wire.to_request().unwrap(), &node, now, &[acct], &mut t);
                     hashseed::order_fingerprint()
                 })
